@@ -50,6 +50,9 @@ pub struct AuxCfg {
 pub enum LocoCfg {
     Conv { fc: FcCfg, gen: GenCfg, edrv: EdrvCfg, aux: AuxCfg },
     Bel { res: ResCfg, edrv: EdrvCfg, aux: AuxCfg },
+    /// hybrid: engine + generator and battery feeding one drivetrain (C08 only: C01/C09/C10 are stated for
+    /// conventional and battery-electric units)
+    Hyb { fc: FcCfg, gen: GenCfg, res: ResCfg, edrv: EdrvCfg, aux: AuxCfg },
 }
 
 pub const FC0: FcCfg = FcCfg { map: 0, rating: 3.356e6, lag: 25.0, init_frac: 0.0, idle: true };
@@ -167,7 +170,33 @@ pub fn build_loco(c: &LocoCfg) -> Locomotive {
             l.set_save_interval(None);
             l
         }
+        LocoCfg::Hyb { fc, gen, res, edrv, aux } => {
+            let mut l = Locomotive::default_hybrid_electric_loco();
+            l.set_fuel_converter(build_fc(fc)).unwrap();
+            l.set_generator(build_gen(gen)).unwrap();
+            l.set_reversible_energy_storage(build_res(res)).unwrap();
+            l.set_electric_drivetrain(build_edrv(edrv)).unwrap();
+            l.pwr_aux_offset = aux.offset * uc::W;
+            l.pwr_aux_traction_coeff = aux.coeff * uc::R;
+            l.set_save_interval(None);
+            l
+        }
     }
+}
+
+/// hybrid configurations (C08): shipped components at four SOC points, the small pack, a slow small engine
+pub fn hyb_configs(thorough: bool) -> Vec<LocoCfg> {
+    let mut v = vec![
+        LocoCfg::Hyb { fc: FC0, gen: GEN0, res: RES0, edrv: EDRV0, aux: AUX0 },
+        LocoCfg::Hyb { fc: FC0, gen: GEN0, res: ResCfg { map: 1, soc: 1, ..RES0 }, edrv: EDRV0, aux: AUX0 },
+        LocoCfg::Hyb { fc: FcCfg { rating: 1.0e6, lag: 5.0, ..FC0 }, gen: GEN0, res: ResCfg { map: 1, soc: 6, ..RES0 }, edrv: EDRV0, aux: AUX0 },
+    ];
+    if thorough {
+        v.push(LocoCfg::Hyb { fc: FcCfg { map: 1, ..FC0 }, gen: GenCfg { eta: 1, ..GEN0 }, res: ResCfg { map: 1, soc: 3, ..RES0 }, edrv: EdrvCfg { eta: 1, ..EDRV0 }, aux: AUX0 });
+        v.push(LocoCfg::Hyb { fc: FC0, gen: GEN0, res: ResCfg { map: 1, soc: 5, ..RES0 }, edrv: EdrvCfg { rating: 2.0e6, ..EDRV0 }, aux: AUX0 });
+        v.push(LocoCfg::Hyb { fc: FC0, gen: GEN0, res: ResCfg { map: 1, soc: 0, ..RES0 }, edrv: EDRV0, aux: AUX0 });
+    }
+    v
 }
 
 pub fn pdct(res_greedy: bool) -> PowerDistributionControlType {
